@@ -217,7 +217,7 @@ def replay(case, ob, inputs):
         import subprocess, sys, json as _j
         prog = ("import io,contextlib\nwith contextlib.redirect_stdout(io.StringIO()):\n    import spil\n    from spil import Sid\n"
                 "x = Sid('hamlet/a/char/ophelia/model/v001/w/ma'); import json\nprint(json.dumps([str(x.path(c)) for c in %r]))" % (configs(),))
-        out = subprocess.run([sys.executable, '-c', prog], capture_output=True, text=True, cwd='/repo').stdout.strip().split('\n')[-1]
+        out = subprocess.run([sys.executable, '-c', prog], capture_output=True, text=True, cwd=W.REPO).stdout.strip().split('\n')[-1]
         try: ps = _j.loads(out); ok = all(p.startswith(root_of(c).rstrip('/')) for p, c in zip(ps, configs()))
         except Exception: ps = out; ok = False
         return {'confirmed': not ok, 'call': "Sid('hamlet/a/char/ophelia/model/v001/w/ma').path(c) for every configuration, fresh process", 'observed': repr(ps)[:400], 'expected': 'each path under its configured root ' + repr([root_of(c) for c in configs()])}
